@@ -150,6 +150,8 @@ structure Mon where
   ghosts : List (Nat × WG) := []
   accepted : List (Key × String) := []   -- contents some delivered response carried as valid
   held : Bool := false
+  heldQ : List (Nat × String × List (String × Upd)) := []   -- responses delivered while the serializer was busy
+  heldPure : Bool := true                                    -- nothing but such responses happened meanwhile
 deriving Repr
 
 def Mon.start (n : Nat) (ign : List Bool) (which : String) : Mon :=
@@ -182,6 +184,18 @@ def expectInitial (r : PRes) : List CbKind :=
   (if r.status = "notexist" then [.resErr .notFound] else [])
 
 def firstSome (l : List (Option String)) : Option String := l.findSome? id
+
+/-- every live server is asked for exactly the resources whose channel set contains it -/
+def checkSubs (post : Snap) : Option String :=
+  (List.range post.srv.length).findSome? fun i =>
+    match post.srv[i]? with
+    | some s =>
+      if s.state = "live" then
+        let want := (post.res.filter fun r => r.chans.contains i).map fun r => r.key.typ ++ "." ++ r.key.name
+        if (s.view.all want.contains) ∧ (want.all s.view.contains) then none
+        else some s!"VIOL server {i} is asked for {s.view} but the resources subscribed there are {want}"
+      else none
+    | none => none
 
 /-- C43 clauses evaluated on one step of the implementation -/
 def checkC43 (m : Mon) (fs : List String) (pre post : Snap) (accepted : List (Key × String)) : Option String :=
@@ -224,15 +238,7 @@ def checkC43 (m : Mon) (fs : List String) (pre post : Snap) (accepted : List (Ke
   -- clause 6 (subscriptions = watched resources)
   let c6a := post.res.findSome? fun r =>
     if r.watchers.isEmpty then some s!"VIOL {r.key.typ}.{r.key.name} keeps a state (and subscriptions) without any watcher" else none
-  let c6b := (List.range post.srv.length).findSome? fun i =>
-    match post.srv[i]? with
-    | some s =>
-      if s.state = "live" then
-        let want := (post.res.filter fun r => r.chans.contains i).map fun r => r.key.typ ++ "." ++ r.key.name
-        if (s.view.all want.contains) ∧ (want.all s.view.contains) then none
-        else some s!"VIOL server {i} is asked for {s.view} but the resources subscribed there are {want}"
-      else none
-    | none => none
+  let c6b := checkSubs post
   -- clauses 3, 4: an update that is processed now
   let c34 : Option String := match fs with
     | ["respond", i, t, _, e] =>
@@ -284,7 +290,9 @@ def checkC44 (m : Mon) (strictTrigger : Bool) (fs : List String) (pre post : Sna
     | some a, some b =>
       if a < b then
         let uncached := (pre.res ++ post.res).any fun r => r.cache.isNone
+        let skipped := (List.range b).find? fun x => decide (a < x) && stateOf post x == "closed"
         if !uncached then some s!"VIOL fallback from server {a} to {b} although every watched resource is cached"
+        else if skipped.isSome then some s!"VIOL fallback from server {a} to {b} skipped server {skipped.getD 0}"
         -- (events processed on `release` may be old: the active server's stream may have failed and been
         -- re-established while the serializer was busy, so its end state says nothing then)
         else if strictTrigger && !m.held && stateOf post a == "live" then
@@ -323,27 +331,73 @@ def checkC44 (m : Mon) (strictTrigger : Bool) (fs : List String) (pre post : Sna
           if post.act ≠ pre.act then some s!"VIOL update from the active server {i} changed the active server" else none
       | _, _ => none
     | _ => none
-  firstSome [inv, sw, upd]
+  firstSome [inv, sw, upd, checkSubs post]
+
+/-- C44 "ignores updates from servers below the active one" when the updates were queued behind a busy
+    serializer and are processed in order on `release`: follow the active server through the queue (an update
+    from at or above the active server makes its server active; one from below must be ignored) and predict the
+    cache of every resource touched only by valid entries. -/
+def checkRelease (m : Mon) (pre post : Snap) : Option String :=
+  if !m.heldPure || m.heldQ.isEmpty then none else
+  match pre.act with
+  | none => none
+  | some act0 =>
+    let (act, ignored) := m.heldQ.foldl (fun (st : Nat × List Nat) q =>
+      if q.1 ≤ st.1 then (q.1, st.2) else (st.1, st.2 ++ [q.1])) (act0, [])
+    if post.act ≠ some act then some s!"VIOL after the queued updates the active server should be {act}"
+    else
+      post.res.findSome? fun r =>
+        -- expected cache: some (some c) known value, none = not predicted
+        let start : Option (Option String) := (resOfKey pre r.key).map (·.cache)
+        let (expect, _) := m.heldQ.foldl (fun (st : Option (Option String) × Nat) q =>
+          let (cur, a) := st
+          if q.1 ≤ a then
+            let cur' := if q.2.1 ≠ r.key.typ then cur else
+              match entLookup q.2.2 r.key.name with
+              | some (.ok c) => some (some c)
+              | some (.bad _) => cur
+              | none => if sotw q.2.1 then none else cur
+            (cur', q.1)
+          else (cur, a)) (start, act0)
+        match expect with
+        | some (some c) =>
+          if r.cache = some c then none
+          else some s!"VIOL {r.key.typ}.{r.key.name}: an update from a server below the active one (servers {ignored}) was not ignored"
+        | _ => none
 
 def observe (m : Mon) (fs : List String) (impl : String) : Mon × String :=
   -- ops that change the monitor's own bookkeeping without a snapshot
   match fs, impl with
-  | ["hold"], _ => if impl.startsWith "cb=" then ({ m with held := true, prev := (parseSnap m.n impl).orElse fun _ => m.prev }, "ok") else (m, "-")
+  | ["hold"], _ => if impl.startsWith "cb=" then ({ m with held := true, heldQ := [], heldPure := true, prev := (parseSnap m.n impl).orElse fun _ => m.prev }, "ok") else (m, "-")
   | _, _ =>
   match parseSnap m.n impl, m.prev with
   | some post, some pre =>
     let accepted := match fs with
       | ["respond", _, t, _, e] => m.accepted ++ ((parseEntries e).filterMap fun (n, u) => match u with | .ok c => some ((⟨t, n⟩ : Key), c) | _ => none)
       | _ => m.accepted
+    let rel : Option String := match fs with | ["release"] => checkRelease m pre post | _ => none
     let verdict := if m.which = "c43" then checkC43 m fs pre post accepted
-                   else if m.which = "c44" then checkC44 m true fs pre post
-                   else if m.which = "c44b" then checkC44 m false fs pre post else none
+                   else if m.which = "c44" then firstSome [checkC44 m true fs pre post, rel]
+                   else if m.which = "c44b" then firstSome [checkC44 m false fs pre post, rel] else none
     let newW : Option Nat := match fs with | ["watch", _, _, w] => w.toNat? | _ => none
     -- a watcher that registers now has been told nothing (watcher ids may be reused after unwatch)
     let gs0 := match newW with | some w => setGhost m.ghosts w {} | none => m.ghosts
     let ghosts := post.cbs.foldl (fun gs (w, ks) => setGhost gs w (ks.foldl WG.apply (ghostOf gs w))) gs0
     let held := match fs with | ["release"] => false | _ => m.held
-    ({ m with prev := some post, ghosts := ghosts, accepted := accepted, held := held }, verdict.getD "ok")
+    -- what queues up while the serializer is busy
+    let (heldQ, heldPure) : List (Nat × String × List (String × Upd)) × Bool :=
+      if !m.held then ([], true) else
+      match fs with
+      | ["respond", i, t, _, e] =>
+        match i.toNat? with
+        | some i =>
+          let deliverable : Bool := match pre.srv[i]? with | some s => s.state == "live" && s.flags.startsWith "W" | none => false
+          if deliverable then (m.heldQ ++ [(i, t, parseEntries e)], m.heldPure) else (m.heldQ, false)
+        | none => (m.heldQ, false)
+      | ["release"] => ([], true)
+      | _ => (m.heldQ, false)
+    ({ m with prev := some post, ghosts := ghosts, accepted := accepted, held := held, heldQ := heldQ, heldPure := heldPure },
+     verdict.getD "ok")
   | _, _ => (m, "-")
 
 end GrpcModel.XdsAuth.Spec
